@@ -21,6 +21,7 @@ CHECKS = {
     "C10": dict(engine="S", text="relational symbolic runs of the real statistics on S and kS (k symbolic for polynomial statistics), on S and S with relabelled directions, plus Cauchy-Schwarz bounds proven as generic lemmas and instantiated on the implementation's outputs, and scale_by_hs with symbolic coefficients and range limits", ref="6/C10"),
     "C12": dict(engine="S", text="from_ww3/from_ncswan/from_wwm/from_era5/from_ndbc and the read_dataset dispatcher executed on in-memory native datasets with symbolic densities, winds and directional moments: z3 proves every output bin is the unit-converted native bin at its converted physical direction, the variance integrals in native and converted units agree, winds are speed / coming-from direction, missing ERA5 values become 0", ref="6/C12"),
     "C14": dict(engine="S", text="Dataset.spec.sel (nearest, idw, bbox) executed through the public API with symbolic station and query longitudes/latitudes and symbolic tolerance, both longitude conventions independently as preconditions: z3 proves the selected stations are those of the circular-distance / box oracle, weights are 1/d, failures happen exactly beyond the tolerance, longitudes come back in the query's convention", ref="6/C14"),
+    "C15": dict(engine="S", text="the real construction functions are executed with symbolic hs, fp, gamma, alpha, gw, mean direction and spread; exp / x**y / cos of symbolic arguments are uninterpreted functions with positivity and range axioms, so z3 proves the Hs-scaling and the unit integral of the spreading function for EVERY positive shape value, non-negativity, jonswap(gamma=1) == pierson_moskowitz, TMA at 5000 m == JONSWAP (depth factor evaluated in floats), and that shape x spreading integrates back to the 1-D shape", ref="6/C15"),
     "C16": dict(engine="S", text="the real smooth_spec (xarray rolling mean) is executed on symbolic spectra for every window/grid in the bound; z3 proves each output bin equals the circular window mean (or lies within the neighbourhood's min/max at the edges), identity for window 1, commutation with circular shifts; even windows must raise", ref="6/C16"),
 }
 
